@@ -6,6 +6,7 @@ from vlib import repo, pairs, gens
 from vlib.common import explore, khash, Recorder
 from vlib.meshreal import Live, apply_op
 from vlib.checks.c01 import operator
+from vlib.geo import geo as get_geo
 
 ID = 'C13'
 LEVEL = 'exploration'
@@ -25,7 +26,7 @@ def shards(tier):
 
 
 def cases(max_ops):
-    curves = ('UnitSquare', 'PiSquare', 'LShape', 'Circle')
+    curves = ('UnitSquare', 'PiSquare', 'LShape', 'Circle', 'Stadium', 'Stadium1', 'Dee')
     return st.fixed_dictionaries({
         'spec': pairs.pair_specs(curves=curves),
         'ops': gens.graded_histories(max_ops=max_ops, allow=('t', 'x', 'tx', 'unif')),
@@ -85,7 +86,7 @@ def body(case, rec, cap, min_n):
     if n > cap * 1.6 or not all(pairs.aspect_ok(e) for e in leaves):
         rec.exclude('size_or_aspect')
         return
-    exact = case['exact'] and case['spec']['curve'] != 'Circle'
+    exact = case['exact'] and get_geo(case['spec']['curve']).polygon
     cj = {k: v for k, v in case.items()}
     try:
         SL = operator(live, exact)
@@ -109,7 +110,7 @@ def body(case, rec, cap, min_n):
     rec.cls('levels_%d' % min(6, max(lv_t, lv_x)))
     rec.cls('pw_exact' if exact else 'quadrature')
     if not lam > 0.01:
-        rec.violation('C13/matrix/%s/%s' % ('exact' if exact else 'quad', 'circle' if case['spec']['curve'] == 'Circle' else 'polygon'),
+        rec.violation('C13/matrix/%s/%s' % ('exact' if exact else 'quad', 'polygon' if get_geo(case['spec']['curve']).polygon else 'curved'),
                       {'min_eig': lam, 'elements': n}, cj)
         return
     # 4x4 child blocks as the hierarchical estimator builds them
